@@ -16,7 +16,7 @@ pub enum Event {
     },
     /// worker entered `on_request`
     WorkerStart { id: String },
-    /// worker is about to compute the answer from the server state
+    /// worker holds the read side of the server and is about to compute the answer
     WorkerComputing { id: String },
     /// worker has the answer, about to send it
     WorkerComputed { id: String },
